@@ -69,6 +69,9 @@ func oddify(r *Rng, d *DeclSpec) {
 			}
 		case o.Kind == "string" && r.Chance(1, 15):
 			o.NoUnquote = true
+		case !isBoolFlag(o.Kind) && !isFuncKind(o.Kind) && r.Chance(1, 12):
+			// an optional argument without an optional-value tag
+			o.Optional, o.OptionalValue = true, nil
 		case (o.Kind == "int" || o.Kind == "uint" || o.Kind == "int64" || o.Kind == "*int") && r.Chance(1, 6):
 			// base tags the library accepts at declaration although they are useless
 			o.Base = []int{1, 40, -3, 37}[r.Intn(4)]
